@@ -570,6 +570,8 @@ func (gb *gcpBalancer) refresh(ref *subConnRef) {
 	)
 	if err != nil {
 		gb.log.Errorf("failed to create a replacement SubConn with NewSubConn: %v", err)
+		// No replacement is on its way: a later call must be able to try again.
+		ref.refreshing = false
 		return
 	}
 	gb.refreshingScRefs[sc] = ref
